@@ -726,7 +726,14 @@ class Harness:
         hooks_where = place.get("hooks", "none")
         self.hook_kw_policy = {}
         if hooks_where != "none":
-            if deco or self.kind == "rp":
+            if self.kind == "rp" and self.sc.get("via_attrs") and not self.sc.get("via_config") and hooks_where in ("policy", "both"):
+                # ... except through attribute assignment on the sugar object, which forwards to its Retry
+                self.hook_kw_policy["on_attempt_start"] = self.mk_attempt_hook("astart", "policy")
+                self.hook_kw_policy["on_attempt_end"] = self.mk_attempt_hook("aend", "policy")
+                if hooks_where == "both":
+                    self.call_kw["on_attempt_start"] = self.mk_attempt_hook("astart", "call")
+                    self.call_kw["on_attempt_end"] = self.mk_attempt_hook("aend", "call")
+            elif deco or self.kind == "rp":
                 # RetryPolicy/@retry take attempt hooks per call only
                 self.call_kw["on_attempt_start"] = self.mk_attempt_hook("astart", "call")
                 self.call_kw["on_attempt_end"] = self.mk_attempt_hook("aend", "call")
@@ -758,7 +765,27 @@ class Harness:
         k = self.kind
         via_config = bool(self.sc.get("via_config")) and not self.hook_kw_policy and k in ("retry", "policy", "rp")
 
+        via_attrs = bool(self.sc.get("via_attrs")) and not via_config and k in ("retry", "policy", "rp")
+
         def mk_retry(cls):
+            if via_attrs:
+                # the third documented way to configure: build with the mandatory arguments, then assign the public attributes
+                # (on the object the caller holds: the Retry itself, the Retry inside a Policy, or the RetryPolicy sugar, which forwards)
+                import datetime
+
+                o = cls(classifier=kw["classifier"], strategy=kw["strategy"], strategies=kw["strategies"]) if cls in (Retry, AsyncRetry) else \
+                    cls(classifier=kw["classifier"], strategy=kw["strategy"], strategies=kw["strategies"])
+                for name in ("result_classifier", "sleep", "before_sleep", "sleeper", "budget", "max_attempts"):
+                    if name in kw:
+                        setattr(o, name, kw[name])
+                o.deadline = datetime.timedelta(seconds=kw["deadline_s"])
+                o.max_unknown_attempts = kw["max_unknown_attempts"]
+                o.per_class_max_attempts = dict(kw["per_class_max_attempts"])
+                if "attempt_timeout_s" in kw:
+                    o.attempt_timeout_s = kw["attempt_timeout_s"]
+                for name, fn in self.hook_kw_policy.items():
+                    setattr(o, name, fn)
+                return o
             if not via_config:
                 return cls(**kw, **self.hook_kw_policy)
             # the documented alternative construction path: a RetryConfig bundle + from_config()
